@@ -190,10 +190,8 @@ theorem inv_step (s s' : St) (a : Act) (h : UInv s) (hs : step s a = some s') : 
   | close k =>
     simp only [step] at hs
     split at hs
-    · split at hs
-      · injection hs with hs; subst hs
-        constructor <;> simp only [upd, PC.got] at * <;> grind
-      · cases hs
+    · injection hs with hs; subst hs
+      constructor <;> simp only [upd, PC.got] at * <;> grind
     · cases hs
 
 theorem inv_run (acts : List Act) (s s' : St) (h : UInv s) (hr : runActs s acts = some s') : UInv s' := by
